@@ -1623,7 +1623,17 @@ class Irc(IrcCommandDispatcher, log.Firewalled):
                       self.state.capabilities_req - capabilities_responded)
             pass # Do nothing, we'll get more
 
+    def _saslRequiredButNotAuthenticated(self):
+        return not self.sasl_authenticated and \
+                conf.supybot.networks.get(self.network).sasl.required()
+
     def endCapabilityNegociation(self, msg):
+        if self._saslRequiredButNotAuthenticated():
+            log.error('%s: SASL is required but authentication did not '
+                    'succeed, not ending capability negotiation; '
+                    'aborting connection.', self.network)
+            self.driver.reconnect(wait=True)
+            return
         self.state.fsm.on_cap_end(self, msg)
         self.sendMsg(ircmsgs.IrcMsg(command='CAP', args=('END',)))
 
@@ -2058,6 +2068,14 @@ class Irc(IrcCommandDispatcher, log.Firewalled):
         log.info('Got start of MOTD from %s', self.server)
 
     def do376(self, msg):
+        if self._saslRequiredButNotAuthenticated():
+            # The server completed the registration without waiting for
+            # CAP END (eg. because it does not support capability negotiation)
+            log.error('%s: SASL is required but the server ended the '
+                    'registration without authentication; aborting '
+                    'connection.', self.network)
+            self.driver.reconnect(wait=True)
+            return
         self.state.fsm.on_end_motd(self, msg)
         log.info('Got end of MOTD from %s', self.server)
         self.afterConnect = True
